@@ -13,10 +13,12 @@ def _scan_directory(path, eapi):
     for filename in listdir_files(path):
         match = eapi.options.update_regex.match(filename)
         if match is not None:
-            files.append(filename)
+            # quarter named files (1Q-2020) apply chronologically: by year, then quarter
+            key = (match.group(2), match.group(1)) if match.re.groups >= 2 else ()
+            files.append((key, filename))
         else:
             logger.error(f"incorrectly named update file: {filename!r}")
-    return sorted(files)
+    return [filename for _key, filename in sorted(files)]
 
 
 def read_updates(path, eapi):
